@@ -101,3 +101,78 @@ Proof.
   unfold bind at 1. unfold reserve. cbn [r_in r_resv mkrd].
   apply read_exact_app. reflexivity.
 Qed.
+
+(** ------------------------------------------------------------------ *)
+(** * C10 (1): crash points of a save *)
+Lemma do_writes_none ws : forall acc, do_writes ws None acc = (acc ++ concat ws, true).
+Proof.
+  induction ws as [|w r IH]; intros acc; cbn [do_writes concat].
+  - now rewrite app_nil_r.
+  - rewrite IH, app_assoc. reflexivity.
+Qed.
+Lemma do_writes_fail ws : forall k acc, (k < length ws)%nat -> snd (do_writes ws (Some k) acc) = false.
+Proof.
+  induction ws as [|w r IH]; intros k acc Hk; cbn [length] in Hk; [lia|].
+  cbn [do_writes]. destruct k as [|k]; [reflexivity|]. apply IH. lia.
+Qed.
+(** what a failed save leaves in the temporary file is a prefix of the complete file *)
+Lemma do_writes_prefix ws : forall f acc, exists rest, acc ++ concat ws = fst (do_writes ws f acc) ++ rest.
+Proof.
+  induction ws as [|w r IH]; intros f acc; cbn [do_writes concat].
+  - exists []. reflexivity.
+  - destruct f as [[|k]|].
+    + cbn [fst]. eexists. reflexivity.
+    + destruct (IH (Some k) (acc ++ w)) as [rest H]. exists rest. now rewrite app_assoc.
+    + destruct (IH None (acc ++ w)) as [rest H]. exists rest. now rewrite app_assoc.
+Qed.
+
+Lemma failed_save_keeps_dump ws k o rn d :
+  (k < length ws)%nat ->
+  let r := save_run ws (Some k) o rn d in snd r = false /\ dk_dump (fst r) = dk_dump d.
+Proof.
+  intros Hk. unfold save_run. destruct o; [split; reflexivity|].
+  pose proof (do_writes_fail ws k [] Hk) as H.
+  destruct (do_writes ws (Some k) []) as [b ok]. cbn [snd] in H. subst ok. split; reflexivity.
+Qed.
+Lemma failed_save_any ws f o rn d :
+  snd (save_run ws f o rn d) = false -> dk_dump (fst (save_run ws f o rn d)) = dk_dump d.
+Proof.
+  unfold save_run. destruct o; [reflexivity|].
+  destruct (do_writes ws f []) as [b [|]]; [|reflexivity].
+  destruct rn; [reflexivity|]. cbn [snd]. discriminate.
+Qed.
+Lemma good_save ws d : save_run ws None false false d = ({| dk_dump := Some (concat ws); dk_tmp := None |}, true).
+Proof. unfold save_run. rewrite do_writes_none. reflexivity. Qed.
+Lemma later_save_succeeds ws ws' f o rn d :
+  save_run ws' None false false (fst (save_run ws f o rn d))
+  = ({| dk_dump := Some (concat ws'); dk_tmp := None |}, true).
+Proof. apply good_save. Qed.
+
+(** at every instant the dump is absent or the complete output of one of the saves attempted *)
+Definition dump_complete (d0 : disk) (hist : list attempt) (d : disk) : Prop :=
+  dk_dump d = dk_dump d0 \/ exists a, In a hist /\ dk_dump d = Some (concat (a_writes a)).
+Lemma do_writes_true ws : forall f acc b, do_writes ws f acc = (b, true) -> b = acc ++ concat ws.
+Proof.
+  induction ws as [|w r IH]; intros f acc b; cbn [do_writes concat].
+  - intros H; inversion H. now rewrite app_nil_r.
+  - destruct f as [[|k]|]; [discriminate| |]; intros H; apply IH in H; now rewrite H, app_assoc.
+Qed.
+Lemma run_attempt_cases d a :
+  dk_dump (run_attempt d a) = dk_dump d \/ dk_dump (run_attempt d a) = Some (concat (a_writes a)).
+Proof.
+  unfold run_attempt, save_run. destruct (a_open_fails a); [left; reflexivity|].
+  destruct (do_writes (a_writes a) (a_failat a) []) as [b ok] eqn:E. destruct ok; [|left; reflexivity].
+  destruct (a_rename_fails a); [left; reflexivity|]. right. cbn [fst dk_dump].
+  apply do_writes_true in E. now subst.
+Qed.
+Lemma dump_always_complete hist : forall d0, dump_complete d0 hist (fold_left run_attempt hist d0).
+Proof.
+  induction hist as [|a h IH] using rev_ind; intros d0.
+  - left. reflexivity.
+  - rewrite fold_left_app. cbn [fold_left].
+    destruct (run_attempt_cases (fold_left run_attempt h d0) a) as [H|H].
+    + destruct (IH d0) as [G|[a' [Hin G]]].
+      * left. congruence.
+      * right. exists a'. split; [apply in_or_app; now left | congruence].
+    + right. exists a. split; [apply in_or_app; right; now left | exact H].
+Qed.
